@@ -433,7 +433,8 @@ func (e *fnEnc) binop(op token.Token, X, Y ssa.Value, resT types.Type, pos token
 	case isString(T):
 		switch op {
 		case token.ADD:
-			n := e.vc.fresh("concat", "Str")
+			// concatenation is a function of its operands (so contracts can name the same string)
+			n := fmt.Sprintf("(strcat %s %s)", x, y)
 			e.vc.def(fmt.Sprintf("(and (= (s-off %s) 0) (= (s-len %s) (+ (s-len %s) (s-len %s))))", n, n, x, y))
 			return n
 		case token.LSS, token.LEQ, token.GTR, token.GEQ:
